@@ -136,6 +136,15 @@ func nonNilError(v ssa.Value, at ssa.Instruction, depth int) (bool, string) {
 		return false, "too deep"
 	}
 	v = stripConv(v)
+	if at != nil {
+		for _, f := range factsAt(at) {
+			if x, op, y, ok := cmpFact(f); ok {
+				if op == token.NEQ && ((stripConv(x) == v && isNilConst(y)) || (stripConv(y) == v && isNilConst(x))) {
+					return true, "guarded by != nil"
+				}
+			}
+		}
+	}
 	switch x := v.(type) {
 	case *ssa.Const:
 		if x.Value == nil {
